@@ -11,6 +11,42 @@ const (
 	PatNotJudged = -1
 )
 
+// otherNotationIPv4 reports whether host is what the URL standard's IPv4 parser accepts as an address (1-4 parts,
+// each decimal, 0x-hexadecimal or 0-octal) without being a canonical dotted quad.
+func otherNotationIPv4(host string) bool {
+	parts := strings.Split(host, ".")
+	if len(parts) > 4 {
+		return false
+	}
+	hexOrOctal := false
+	for _, p := range parts {
+		if p == "" {
+			return false
+		}
+		digits := p
+		if len(p) >= 2 && p[0] == '0' && (p[1] == 'x' || p[1] == 'X') {
+			digits, hexOrOctal = p[2:], true
+			for i := 0; i < len(digits); i++ {
+				c := digits[i]
+				if !(c >= '0' && c <= '9' || c >= 'a' && c <= 'f' || c >= 'A' && c <= 'F') {
+					return false
+				}
+			}
+			continue
+		}
+		for i := 0; i < len(digits); i++ {
+			if digits[i] < '0' || digits[i] > '9' {
+				return false
+			}
+		}
+		if len(p) > 1 && p[0] == '0' {
+			hexOrOctal = true
+		}
+	}
+	// all parts are numbers: an IPv4 address in some notation; the canonical dotted quad is judged further down
+	return hexOrOctal || len(parts) < 4
+}
+
 // PatternVerdict is a reference recogniser for origin patterns written from the documentation of
 // Config.Origins. It answers PatNotJudged for the documented grey zones (https with an IP host, `_` in
 // schemes or labels, labels that start or end with a hyphen or carry hyphens in positions 3-4, hosts whose
@@ -123,6 +159,9 @@ func PatternVerdict(s string) int {
 		if l[0] == '-' || l[len(l)-1] == '-' || len(l) >= 4 && l[2] == '-' && l[3] == '-' {
 			notJudged = true
 		}
+	}
+	if otherNotationIPv4(h) {
+		return PatInvalid // "Hosts that are IPv4 addresses must be specified in dotted-quad notation"
 	}
 	last := labels[len(labels)-1]
 	if last[0] >= '0' && last[0] <= '9' {
